@@ -30,9 +30,19 @@ def paper_compare(ctx, case, xs, spec, cols=None):
     trips = {}
     for i, kind in case.get('roundtrip') or []:
         trips.setdefault(i, []).append(kind)
+    rejects = {}
+    for i, kind in case.get('rejects') or []:
+        rejects.setdefault(i, []).append(kind)
     for i in range(len(xs)):
         for kind in trips.get(i, []):
             est = p2lib.roundtrip(est, kind)
+        for kind in rejects.get(i, []):
+            msg = p2lib.offer_rejected(est, kind, (len(cols),) if cols else ())
+            if msg == 'accepted':
+                return left_outer
+            if msg:
+                ctx.fail('p2-rejected-observation-changes-state', msg + ' (before observation %d)' % i, case)
+                return left_outer
         pres = [p2lib.state(est, c if cols else None) for c in range(ncomp)]
         est.accumulate(np.array([cols[c][i] for c in range(ncomp)], dtype=float) if cols else xs[i])
         for c in range(ncomp):
@@ -154,12 +164,13 @@ def check(ctx):
         n = rng.choice([6, 12, 25, 60, 120] if ctx.quick else [6, 12, 25, 60, 150, 400, 1000])
         xs = p2lib.gen_seq(rng, n, fam)
         trips = p2lib.gen_roundtrips(rng, n)
-        case = dict(spec=spec, family=fam, n=n, shape=[], cols=[xs], roundtrip=trips)
+        rej = p2lib.gen_rejects(rng, n)
+        case = dict(spec=spec, family=fam, n=n, shape=[], cols=[xs], roundtrip=trips, rejects=rej)
         sm = c07.small(case)
         cols = None
         if rng.random() < 0.3:
             cols = [xs] + [p2lib.gen_seq(rng, n, rng.choice(p2lib.FAMILIES)) for _ in range(rng.choice([1, 2]))]
-            case = dict(spec=spec, family=fam, n=n, shape=[len(cols)], cols=cols, roundtrip=trips)
+            case = dict(spec=spec, family=fam, n=n, shape=[len(cols)], cols=cols, roundtrip=trips, rejects=rej)
             sm = c07.small(case)
             ctx.count('array_observations')
         left = paper_compare(ctx, sm, xs, spec, cols)
